@@ -172,6 +172,10 @@ def build(cfg, float_mode=False):
         d['space_transfer_class'] = FloatInject if float_mode else sp.Inject
         if cfg.get('finter'):
             d['base_transfer_params'] = {'finter': True}
+    if cfg.get('postrun'):
+        from pySDC.implementations.hooks.log_errors import LogGlobalErrorPostRun
+
+        cfg = dict(cfg, hooks=list(cfg.get('hooks', [])) + [LogGlobalErrorPostRun])
     cp = {'logger_level': 50, 'dump_setup': False, 'hook_class': [RecRes] + list(cfg.get('hooks', [])) + ([ExtEntryHook] if cfg.get('exthook') else []), 'predict_type': cfg.get('predict'),
           'mssdc_jac': cfg.get('jac', True), 'all_to_done': cfg.get('all_to_done', False)}
     if cfg.get('_shared') is not None:
